@@ -15,7 +15,7 @@ SPEC = {
             "descendant axis as an inner universal). Judged: evaluate(parse(sugar)) == evaluate(parse(core)) on every tree; "
             "R2 on the core AST is recorded. distinct = distinct (grammar, sugar kinds used, formula skeleton)",
     "minimum": {"quick": {"pairs_judged": 600, "tree_comparisons": 3000, "kind_xpath": 100, "kind_connective": 100, "kind_free": 80,
-                          "kind_omit_names": 80, "kind_infix": 150, "kind_free_named_clash": 20},
+                          "kind_omit_names": 80, "kind_infix": 150, "kind_free_named_clash": 20, "kind_arith_chain": 40},
                 "thorough": {"pairs_judged": 15000, "kind_xpath": 3000, "kind_free": 2000}},
     "assumptions": ["desugaring direction is by construction (AST -> sugar), following islaspec.rst 'Simplified Syntax'",
                     "XPath in existential scope is judged only when the child occurs in exactly one expansion alternative",
@@ -52,7 +52,7 @@ def make_case(gen, rng):
         return None
     if any('"' in "".join(sy) or "\\" in "".join(sy) or "[" in "".join(sy) or "{" in "".join(sy) or "\n" in "".join(sy) for _, sy in fresh.mexprs):
         return None
-    opts = SU.choose_opts(f, rng)
+    opts = SU.choose_opts(f, rng, kind)
     return f, kind, core, opts, fresh.exists_multi
 
 
